@@ -156,3 +156,14 @@ def shrink(f, fails):
             if changed:
                 break
     return best
+
+MANIFEST = {
+    "text": "Proof: for every history of write and poll events, an invariant proved by induction over the history gives "
+            "bytes(emitted) ++ buffer = written, prefix-sum offsets, and decodeAll(written) = emitted ++ sweep(buffer); polled to "
+            "exhaustion, emitted = decodeAll(written) and finish reports exactly the incomplete tail. The right-hand sides mention "
+            "no chunk boundary (C04_chunking_independent). No bound on lengths, chunk counts or interleavings.",
+    "note": "Trusted: Lean kernel; Disasm/Model.lean (Iter::next incl. consume-before-from_slice, write, finish) tied to "
+            "etk_asm::disasm by the differential run over (bytes, partition, poll interleaving) triples; SizeOK hypothesis discharged "
+            "from the regenerated Cancun table (C17 checker). VecDeque/split_off are modelled as list take/drop.",
+    "technique": "Lean 4 invariant proof over operation histories + differential correspondence with the real Disassembler",
+}
